@@ -123,3 +123,24 @@ def _body(root: int, i0: int, i1: int, maskval: int, pr: int) -> bool:
             return False
     ins_deps = [m for m in ins.inserted if isinstance(m, HTMLDependency)]
     return len(plus_deps) == len(base_deps) + len(ins_deps)
+
+
+def _raw_body(name: int, tx: int, maskval: int, extra: int) -> bool:
+    nm = ["script", "style", "div", "textarea"][name]
+    text = ["a < b && c", "x>y{}", "plain", "</p>&amp;"][tx]
+    kids = [text] if extra == 0 else [text, "more<"]
+    base = Tag(nm, *kids)
+    ins = _Ins(maskval)
+    plus = with_meta(base, ins)
+    return plus.get_html_string() == base.get_html_string() and plus.render()["html"] == base.render()["html"] \
+        and (len(ins.inserted) == 0 or len(plus.children) > len(base.children))
+
+
+@harness("C07", pre=lambda B, name, tx, mask, extra: 0 <= name <= 3 and 0 <= tx <= 3 and 0 <= mask < len(_MASKS) and 0 <= extra <= 1,
+         shard={"name": range(4)},
+         sel=["name: script / style / div / textarea", "tx: text with markup metacharacters", "mask: metadata insertion points", "extra: one or two text children"],
+         targets=["htmltools._core.Tag.get_html_string"])
+def h_meta_raw_text(name: int, tx: int, mask: int, extra: int) -> bool:
+    """metadata nodes next to the text of a raw-text element (script/style) or an ordinary one leave the markup unchanged
+    (in particular they do not switch the text between escaped and verbatim)"""
+    return api.concrete(_raw_body, api.conc(name, 0, 3), api.conc(tx, 0, 3), pick(mask, _MASKS), api.conc(extra, 0, 1))
